@@ -4,6 +4,7 @@ package harness
 
 import (
 	"fmt"
+	"github.com/platinummonkey/go-concurrency-limits/core"
 	"testing"
 	"testing/synctest"
 	"time"
@@ -68,7 +69,7 @@ func runC12InBubble(c c02Case) (out kit.Outcome) {
 			return &o
 		}
 		hasReg := c.Stack.Kind != "fifo-dep" // the deprecated FIFO constructor takes no registry
-		if v, ok := st.reg.gauge("queue_size", ""); !ok {
+		if v, ok := st.reg.gauge(core.MetricQueueSize, ""); !ok {
 			if hasReg {
 				o := kit.Viol(kind+":size-gauge", "queue_size gauge was not registered with the configured registry")
 				return &o
@@ -83,7 +84,7 @@ func runC12InBubble(c c02Case) (out kit.Outcome) {
 				return &o
 			}
 		}
-		if v, ok := st.reg.gauge("queue_limit", ""); hasReg && (!ok || int(v) != maxBacklog) {
+		if v, ok := st.reg.gauge(core.MetricQueueLimit, ""); hasReg && (!ok || int(v) != maxBacklog) {
 			o := kit.Viol(kind+":limit-gauge", "%s: queue_limit gauge reports %v (registered=%v), configured bound %d", when, v, ok, maxBacklog)
 			return &o
 		}
